@@ -35,7 +35,8 @@ EXPLANATION = (
     "_fwdRefs->find(id) only; expansion under the .second of the insert into the result set; the cursor advances every iteration. "
     "(R5) in every function that attaches a comment string to an instance (AddP21Comment/PrependP21Comment of a local string) "
     "each ReadTokenSeparator call from which the attach is reachable passes the address of that string. "
-    "(R2b) while the end of a comment is searched the lazy scanner neither skips \"strings\" nor recurses on a further \"/*\". (R3b) a data instance is entered into the loaded set before its attributes are read (reference cycles). (R4b) the work list of instanceDependencies only grows at its end unless the cursor is not advanced afterwards. (R6) every C library integer conversion in the reader libraries uses base 10. Not decided: equality of the index with the eager population, offsets, serialisation equality, complex instances.")
+    "(R2b) while the end of a comment is searched the lazy scanner neither skips \"strings\" nor recurses on a further \"/*\". (R3b) a data instance is entered into the loaded set before its attributes are read (reference cycles). (R4b) the work list of instanceDependencies only grows at its end unless the cursor is not advanced afterwards. (R6) every C library integer conversion in the reader libraries uses base 10. Not decided: equality of the index with the eager population, offsets, serialisation equality, complex instances."
+    " (R7) section and stream offset of an instance share one 64-bit word; the packing site (addLazyInstance) and the unpacking sites (loadInstance, typeFromFile, countDataSections) shift by the same constant K and mask with 2^K-1: writer and readers of the word agree on its layout.")
 
 TABLES = {"lazyInstMgr::_instanceTypes", "lazyInstMgr::_instanceStreamPos", "lazyInstMgr::_fwdInstanceRefs", "lazyInstMgr::_revInstanceRefs"}
 MUT = {"insert", "erase", "clear", "remove", "operator[]"}
@@ -475,6 +476,66 @@ def r5_comments(prog, res):
     res.floor("R5", "token-separator calls ahead of a comment attach", n, 4)
 
 
+def r7_packed_word(prog, res):
+    """The lazy index keeps section and stream offset of an instance in one 64-bit word: `ps = section; ps <<= K; ps |= offset & M` on the
+    writing side, `ps & M` / `ps >> K` on the reading sides (loadInstance, typeFromFile).  The sides agree only when every site uses the
+    same K and M == 2^K - 1; a narrower mask on one side makes the loader seek to offset mod 2^n - into the middle of another instance -
+    for every instance beyond that offset, while the index (ids, types, references) stays right.  Sites are found by shape: a 64-bit
+    variable of a cllazyfile function that is shifted by a constant >= 32 and combined with / masked by a constant."""
+    def bare(n):
+        n = strip(n)
+        while n is not None and n["k"] in ("Paren", "Cast") and n.get("ch") and "val" not in n:
+            n = strip(n["ch"][0])
+        return n
+    groups = {}
+    for f in prog.all_functions():
+        if f.component != "cllazyfile":
+            continue
+        for n in f.walk():
+            if n["k"] not in ("Binary", "CompoundAssign") or n.get("op") not in ("<<", ">>", "<<=", ">>=", "&", "&="):
+                continue
+            a, b = bare(n["ch"][0]), bare(n["ch"][1])
+            if n["op"].startswith(("<<", ">>")):
+                if a is not None and a["k"] == "Ref" and a.get("dk") in ("local", "param") and "long" in f.ty(a) and \
+                        b is not None and isinstance(b.get("val"), int) and b["val"] >= 32:
+                    groups.setdefault((f.key, a["d"]), {"f": f, "v": a["n"], "K": [], "M": []})["K"].append((b["val"], n))
+        for n in f.walk():
+            if n["k"] in ("Binary", "CompoundAssign") and n.get("op") in ("&", "&="):
+                a, b = bare(n["ch"][0]), bare(n["ch"][1])
+                for x, y in ((a, b), (b, a)):
+                    if y is None or not isinstance(y.get("val"), int) or y["val"] < 0xFFFF:
+                        continue
+                    # unpack: v & M        pack: v |= ( e & M )
+                    if x is not None and x["k"] == "Ref" and (f.key, x.get("d")) in groups:
+                        groups[(f.key, x["d"])]["M"].append((y["val"], n))
+                    else:
+                        par = f.parent.get(n["i"])
+                        while par is not None and par["k"] in ("Paren", "Cast"):
+                            par = f.parent.get(par["i"])
+                        if par is not None and par["k"] in ("CompoundAssign", "Binary") and par.get("op") in ("|=", "|"):
+                            t = bare(par["ch"][0])
+                            if t is not None and t["k"] == "Ref" and (f.key, t.get("d")) in groups:
+                                groups[(f.key, t["d"])]["M"].append((y["val"], n))
+    ks = sorted({k for g in groups.values() for k, _ in g["K"]})
+    n = 0
+    for (fk, d), g in sorted(groups.items(), key=lambda kv: (kv[1]["f"].relfile(), kv[1]["f"].line)):
+        f = g["f"]
+        if not g["M"]:
+            continue
+        n += 1
+        K = g["K"][0][0]
+        badm = [(m, nd) for m, nd in g["M"] if m != (1 << K) - 1]
+        badk = [(k, nd) for k, nd in g["K"] if k != K] or ([(K, g["K"][0][1])] if len(ks) > 1 and K != max(ks, key=lambda k_: sum(1 for g2 in groups.values() if g2["K"][0][0] == k_)) else [])
+        ok = not badm and not badk
+        res.add("R7.packed_word_fields_agree", "R7|%s|%s|%s" % (f.relfile(), f.name, g["v"]), f.where((badm or badk or [(0, g["K"][0][1])])[0][1]), ok,
+                "`%s` is split at bit %d and masked with 2^%d-1 at every site" % (g["v"], K, K) if ok else
+                ("`%s` is shifted by %d but masked with %#x (= 2^%d-1): stream offsets of %d bits survive packing, %d bits are expected by "
+                 "the other side; an instance beyond that offset is loaded from another instance's text"
+                 % (g["v"], K, badm[0][0], badm[0][0].bit_length(), badm[0][0].bit_length(), K)) if badm else
+                "`%s` is shifted by %d here, by %s elsewhere" % (g["v"], badk[0][0], [k for k in ks if k != badk[0][0]]))
+    res.floor("R7.packed_word_fields_agree", "pack / unpack sites of the position word", n, 3)
+
+
 def run(prog, res, tier):
     r1_index(prog, res)
     r2_scanner(prog, res)
@@ -482,3 +543,4 @@ def run(prog, res, tier):
     r4_closure(prog, res)
     r6_ids_decimal(prog, res)
     r5_comments(prog, res)
+    r7_packed_word(prog, res)
